@@ -17,7 +17,11 @@ RULE = ("every expression tree of depth <= 1 over From/FromSlice/TakeWhile/DropW
         "(source slices of length 0..3, From, join-argument leaves), 7 predicates (<c, !=c, parity, true, false), 3 maps, "
         "3 slice-returning join functions (replicate, range, nil) and 8 nested-expression join functions; at depth 2 every unary "
         "operator over every depth-1 tree, Plus of every depth-1 tree with every leaf on either side and a seeded sample of "
-        "Plus(depth 1, depth 1); seeded random trees of depth 3..6 (thorough: ..7, slices up to length 6; random trees with more than 1500 result elements or 4000 constructor/join-function calls are skipped). Each tree is built "
+        "Plus(depth 1, depth 1); joins whose function is CONDITIONAL - nil for some outer elements (11 guards over 3 outer slices: nil "
+        "first, between, several in a row, at the end, alternating, all) and otherwise an early-stopping expression of the argument "
+        "(TakeWhile/DropWhile/Filter with 5 non-monotone predicates - parity, mod 3, membership - over 4 slices where the predicate "
+        "fails in the middle and holds again later, and 60 compositions of them with Plus/Map/Filter/Join/nested conditional joins): "
+        "all 3960, a sample inside a further operator, and seeded random ones; seeded random trees of depth 3..6 (thorough: ..7, slices up to length 6; random trees with more than 1500 result elements or 4000 constructor/join-function calls are skipped). Each tree is built "
         "from the real constructors, drained with the documented loop and (depth <= 1: always, deeper: sampled) consumed by "
         "seq.ForEach with a callback failing at call 0/1/2/never or on a predicate. A case is distinct by (tree, consumption mode) "
         "and non-trivial when the required list is non-empty")
